@@ -56,6 +56,8 @@ typedef struct {
   uint8_t site_shared[NSITES];  // frozen for the current pass
   uint8_t site_next[NSITES];    // discoveries
   volatile int new_sites;
+  volatile int precise;   // yielded threads are re-enabled only by writes to locations they read in their last iteration
+  volatile int atomicfilter;  // atomics are choice points only at conflict-observed sites (like plain accesses)
   volatile int envall;    // offer environment deviations at every unconditional scheduling point (no reduction)
   volatile int nofilter;  // discovery pass: every instrumented access is a choice point
 } shared_t;
